@@ -62,6 +62,59 @@ def check(run, prog, tier):
     run.rule("C14-K", "a temperature of zero is a temperature: where `None` stands for 'take the temperature of the bath', "
                       "the parameter is tested with `is None`, never for its truth value (0 K is falsy)", minimum=3)
     rule_K(run, prog)
+    run.rule("C14-L", "the eigenbasis in which thermal states are defined comes from a diagonalisation on every path (no 'already "
+                      "diagonal' short cut under an absolute tolerance)", minimum=1)
+    rule_L(run, prog)
+
+
+def rule_L(run, prog):
+    """'... for all systems, energy scales': the excitonic equilibrium is the Boltzmann state in the basis that
+    eigenbasis_of(H) provides, and that basis is whatever get_diagonalization_matrix() of the operator returns.  The
+    eigenvectors come from the diagonalisation of the stored matrix on every path; a short cut that declares the operator
+    'already diagonal' by an approximate test (allclose / isclose / is_diagonal use an absolute tolerance of 1e-8, in
+    internal units of rad/fs that is 5e-5 1/cm) hands back the site basis for every aggregate whose couplings are below
+    the tolerance, however small its energy gaps: far-apart, nearly degenerate molecules get a localised 'thermal' state.
+    Every value returned by a get_diagonalization_matrix of the operator classes is computed from the result of an
+    eigen-decomposition (eigh / eig) made in the same call."""
+    rid = "C14-L"
+    n = 0
+    for cls in prog.all_classes():
+        if not cls.qualname.startswith("quantarhei.qm.hilbertspace.") or "get_diagonalization_matrix" not in cls.methods:
+            continue
+        f = cls.methods["get_diagonalization_matrix"]
+        prog.consulted.add(f.relpath)
+        derived = set()
+        for st in walk_no_nested(f.node):
+            if isinstance(st, ast.Assign) and any(isinstance(c, ast.Call) and (call_name(c) or "").split(".")[-1] in ("eigh", "eig")
+                                                  for c in ast.walk(st.value)):
+                for t_ in st.targets:
+                    for y in ast.walk(t_):
+                        if isinstance(y, ast.Name):
+                            derived.add(y.id)
+        changed = True
+        while changed:
+            changed = False
+            for st in walk_no_nested(f.node):
+                if isinstance(st, ast.Assign) and isinstance(st.targets[0], ast.Name) and st.targets[0].id not in derived \
+                        and any(isinstance(y, ast.Name) and y.id in derived for y in ast.walk(st.value)):
+                    derived.add(st.targets[0].id)
+                    changed = True
+        rets = [r for r in walk_no_nested(f.node) if isinstance(r, ast.Return)]
+        if not rets:
+            raise AnalysisError("%s returns nothing" % f.short)
+        for r in rets:
+            n += 1
+            ok = r.value is not None and any(isinstance(y, ast.Name) and y.id in derived for y in ast.walk(r.value)) or \
+                (r.value is not None and any(isinstance(c, ast.Call) and (call_name(c) or "").split(".")[-1] in ("eigh", "eig")
+                                             for c in ast.walk(r.value)))
+            run.obligation(rid, f.short, ok, key="eigenvectors-from-a-decomposition:%d" % rets.index(r),
+                           message="%s returns `%s`, which is not computed from an eigen-decomposition made in this call: a short cut "
+                                   "that takes the operator for diagonal by an approximate (absolute-tolerance) test gives the site "
+                                   "basis for couplings below the tolerance, whatever the energy gaps - the weak-coupling thermal "
+                                   "states of such aggregates are then not excitonic equilibria"
+                                   % (f.short, norm(r.value)[:60] if r.value is not None else "None"), loc=f.loc(r))
+    if n < 1:
+        raise AnalysisError("C14-L: no get_diagonalization_matrix found in qm.hilbertspace")
 
 
 def rule_K(run, prog):
